@@ -98,10 +98,12 @@ DelKeys(t)  == IF thr[t].op = "delete" THEN Range(thr[t].a) ELSE {}
 OpenIns(t)  == IF thr[t].op = "open" THEN {k[1] : k \in Range(thr[t].ks)} ELSE {}
 OpenOuts(t) == IF thr[t].op = "open" THEN {k[2] : k \in Range(thr[t].ks)} ELSE {}
 TrimOuts(t) == IF thr[t].op = "trim" THEN {k[2] : k \in Range(thr[t].ks)} ELSE {}
+TrimIns(t)  == IF thr[t].op = "trim" THEN {k[1] : k \in Range(thr[t].ks)} ELSE {}
 Committing == UNION {ComKeys(t) : t \in Threads}
 Deleting   == UNION {DelKeys(t) : t \in Threads}
 OpeningIn  == UNION {OpenIns(t) : t \in Threads}
 OpeningOut == UNION {OpenOuts(t) : t \in Threads}
+TrimmingIn == UNION {TrimIns(t) : t \in Threads}
 LinkBusy(c) == \E t \in Threads : \E o \in OpenOuts(t) \cup TrimOuts(t) : o[1] = c
 
 \* a new call is issued on the lowest idle thread (threads are interchangeable)
@@ -186,9 +188,8 @@ FreeFrom(c) ==
 OpenBatches(c) ==
   IF FreeFrom(c) = {} THEN {}
   ELSE LET i0 == Min(FreeFrom(c)) IN
-       {ks \in SeqsUpTo(InKeys \X OutKeys, MaxBatch) :
-           /\ Injective([j \in DOMAIN ks |-> ks[j][1]])
-           /\ \A j \in DOMAIN ks : ks[j][2] = <<c, i0 + j - 1>>}
+       {[j \in DOMAIN b |-> <<b[j], <<c, i0 + j - 1>>>>] :
+           b \in {x \in SeqsUpTo(InKeys, MaxBatch) : Injective(x) /\ (i0 + Len(x) - 1) \in Ids}}
 \* ... or it repeats a keystone that is already there (answered ErrDuplicateKeystone)
 DupBatches == {<<(<<in, o[1]>>)>> : in \in InKeys, o \in opened}
 
@@ -200,9 +201,10 @@ OpenCheck(t, ks) ==
         /\ SwitchFaithful =>
               \* A1: the caller learns of a circuit only from the Adds answer
               /\ ks[j][1] \notin Committing
-              \* A4: a link is one goroutine (no Open/Trim of the same channel overlap), a
-              \* circuit is opened by one link and torn down only after it was opened or failed
-              /\ ks[j][1] \notin Deleting \cup OpeningIn
+              \* A4: a link is one goroutine (no Open/Trim of the same channel overlap); a circuit
+              \* belongs to one outgoing link: no Open / Delete while another call of that link
+              \* (Open, Trim) or a Delete that touches the circuit is in flight
+              /\ ks[j][1] \notin Deleting \cup OpeningIn \cup TrimmingIn
               /\ ~LinkBusy(ks[j][2][1])
               /\ ~IsClosedChan(ks[j][2][1])
         \* A6, seen from the other side: no keystone for a circuit of a fully closed channel
@@ -323,8 +325,8 @@ Fail(in) ==
 DeleteMem(t, keys) ==
   /\ Call(t)
   /\ SwitchFaithful => \A k \in Range(keys) :
-        \* A1 / A4: not while the circuit's commit or open is in flight
-        /\ k \notin Committing \cup OpeningIn
+        \* A1 / A4: not while the circuit's commit, open or trim is in flight
+        /\ k \notin Committing \cup OpeningIn \cup TrimmingIn
         \* A5: a circuit is torn down after a response; an outgoing htlc that has not reached
         \* a commitment (keystone index >= NextLocalHtlcIndex) cannot have been answered
         /\ \A p \in Pend(k) : p.out # None /\ ~IsClosedChan(p.out[1]) => p.out[2] < nextIdx[p.out[1]]
